@@ -2,7 +2,10 @@
     This file contains only the property theorems (each closed by [exact]),
     their axiom audit, and non-vacuity examples. *)
 From Coq Require Import ZArith List Bool.
-From Low Require Import Lib.Bits Lib.BitSeq Model.Rank Spec.RankSpec Proofs.RankProofs.
+From Low Require Import Lib.MachInt Lib.Bits Lib.BitSeq Model.Rank Spec.RankSpec Proofs.RankProofs.
+From Low Require Import Model.Rank32 Model.RankOps Model.BitmapOf Spec.RankLawsSpec Spec.OfQuerySpec
+  Proofs.Rank32Proofs Proofs.RankLaws Proofs.RankIndexLaws Proofs.RankConcat Proofs.RankHistory Proofs.RankCompose Proofs.RankComplement Proofs.RankConcat128 Proofs.RankContract.
+From Low Require Import Model.BitmapMask12 Model.RankTab Proofs.RankTabProofs.
 Import ListNotations.
 Open Scope Z_scope.
 
@@ -42,3 +45,276 @@ Proof.
   split; [apply words_okb_ok; reflexivity|].
   vm_compute. intuition congruence.
 Qed.
+
+(** * Widening (a): the int32-faithful model (Model/Rank32.v: every Go int32 operation wraps) *)
+
+(** for bitmaps of ANY length the int32 indexes are the wrapped unbounded ones *)
+Theorem C01_int32_IndexRank64 : forall ws tr, IndexRank64_32 ws tr = map i32 (IndexRank64 ws tr).
+Proof. exact IndexRank64_32_wrap. Qed.
+Print Assumptions C01_int32_IndexRank64.
+
+Theorem C01_int32_IndexRank128 : forall ws, IndexRank128_32 ws = map i32 (IndexRank128 ws).
+Proof. exact IndexRank128_32_wrap. Qed.
+Print Assumptions C01_int32_IndexRank128.
+
+(** under the size assumption of every statement nothing wraps *)
+Theorem C01_int32_IndexRank64_agree : forall ws tr, words_ok ws -> 64 * zlen ws < 2^31 ->
+  IndexRank64_32 ws tr = IndexRank64 ws tr.
+Proof. exact IndexRank64_32_agree. Qed.
+Print Assumptions C01_int32_IndexRank64_agree.
+
+Theorem C01_int32_IndexRank128_agree : forall ws, words_ok ws -> 64 * zlen ws < 2^31 ->
+  IndexRank128_32 ws = IndexRank128 ws.
+Proof. exact IndexRank128_32_agree. Qed.
+Print Assumptions C01_int32_IndexRank128_agree.
+
+(** Rank64 over int32: exact on EVERY int32 position inside a bitmap of ANY length (no size hypothesis: the count
+    before [i] is at most [i]), a panic on every other int32 position *)
+Theorem C01_int32_Rank64 : forall ws tr i, words_ok ws -> - 2^31 <= i < 2^31 ->
+  Rank64_32 ws (IndexRank64_32 ws tr) i = if pos_in ws i then Some (spec_Rank ws i) else None.
+Proof. exact Rank64_32_exact. Qed.
+Print Assumptions C01_int32_Rank64.
+
+(** Rank128 over int32: exact for [0 <= i < min (64 len) (2^31 - 64)], a panic on every other int32 position *)
+Theorem C01_int32_Rank128 : forall ws i, words_ok ws -> - 2^31 <= i < 2^31 ->
+  Rank128_32 ws (IndexRank128_32 ws) i =
+  if pos_in ws i && (i <? 2^31 - 64) then Some (spec_Rank ws i) else None.
+Proof. exact Rank128_32_exact. Qed.
+Print Assumptions C01_int32_Rank128.
+
+(** the boundary of the size assumption: on the last 64 int32 positions [i + 64] wraps and Rank128 panics, whatever
+    the bitmap and the index - while Rank64 still answers there (C01_int32_Rank64) when the bitmap has 2^25 words *)
+Theorem C01_int32_Rank128_boundary : forall ws ridx i, 2^31 - 64 <= i < 2^31 -> Rank128_32 ws ridx i = None.
+Proof. exact Rank128_32_boundary. Qed.
+Print Assumptions C01_int32_Rank128_boundary.
+
+(** inside the assumption the two models cannot be told apart *)
+Theorem C01_int32_agree : forall ws tr i, words_ok ws -> 64 * zlen ws < 2^31 -> 0 <= i < 64 * zlen ws ->
+  Rank64_32 ws (IndexRank64_32 ws tr) i = Rank64 ws (IndexRank64 ws tr) i /\
+  Rank128_32 ws (IndexRank128_32 ws) i = Rank128 ws (IndexRank128 ws) i.
+Proof. exact Rank32_agree. Qed.
+Print Assumptions C01_int32_agree.
+
+(** the trailing entry is the WRAPPED total (-2^31 for 2^25 all-ones words) *)
+Theorem C01_int32_trailing : forall ws, words_ok ws ->
+  nthZ (IndexRank64_32 ws true) (zlen ws) = Some (i32 (total1 ws)).
+Proof. exact IndexRank64_32_trailing. Qed.
+Print Assumptions C01_int32_trailing.
+
+(** the run-time op bitmap.Rank/any (any int32 position, any flavour) *)
+Theorem C01_int32_query : forall f ws i, words_ok ws -> - 2^31 <= i < 2^31 ->
+  query32 f ws i = spec_query32 (is128 f) ws i.
+Proof. exact query32_total. Qed.
+Print Assumptions C01_int32_query.
+
+Example C01_int32_nonvacuous :
+  Rank128_32 [5; 2^64 - 1; 6] (IndexRank128_32 [5; 2^64 - 1; 6]) 130 = Some (67, 1) /\
+  Rank64_32 [5; 2^64 - 1; 6] (IndexRank64_32 [5; 2^64 - 1; 6] true) 191 = Some (68, 0) /\
+  Rank64_32 [5] (IndexRank64_32 [5] true) 64 = None /\ Rank128_32 [5] (IndexRank128_32 [5]) (-1) = None /\
+  Rank128_32 [5] [0] (2^31 - 1) = None /\ 2^31 - 64 <= 2^31 - 1 < 2^31.
+Proof. vm_compute. intuition congruence. Qed.
+
+(** * Widening (b): the laws of rank.  [query f ws i] = build the index of flavour [f], ask it for [i] *)
+
+(** one total characterisation, on EVERY integer: (count, bit) inside the bitmap, a panic outside *)
+Theorem C01_query_total : forall f ws i, words_ok ws -> query f ws i = RankLawsSpec.spec_query ws i.
+Proof. exact query_total. Qed.
+Print Assumptions C01_query_total.
+
+(** Rank64 (either index) and Rank128 agree on every position *)
+Theorem C01_flavours_agree : forall f f' ws i, words_ok ws -> query f ws i = query f' ws i.
+Proof. exact law_agree. Qed.
+Print Assumptions C01_flavours_agree.
+
+(** rank(i+1) = rank(i) + bit(i) *)
+Theorem C01_rank_step : forall f f' ws i r b r' b', words_ok ws ->
+  query f ws i = Some (r, b) -> query f' ws (i + 1) = Some (r', b') -> r' = r + b.
+Proof. exact law_step. Qed.
+Print Assumptions C01_rank_step.
+
+(** monotone; grows by at most the distance; by at least the bit at the lower position *)
+Theorem C01_rank_monotone : forall f f' ws i j ri bi rj bj, words_ok ws -> i <= j ->
+  query f ws i = Some (ri, bi) -> query f' ws j = Some (rj, bj) ->
+  ri <= rj <= ri + (j - i) /\ (i < j -> ri + bi <= rj).
+Proof. exact law_mono. Qed.
+Print Assumptions C01_rank_monotone.
+
+Theorem C01_rank_bounds : forall f ws i r b, words_ok ws -> query f ws i = Some (r, b) ->
+  0 <= r <= i /\ (b = 0 \/ b = 1) /\ r + b <= total1 ws /\ total1 ws - (r + b) <= 64 * zlen ws - (i + 1).
+Proof. exact law_bounds. Qed.
+Print Assumptions C01_rank_bounds.
+
+(** the trailing entry of IndexRank64(words, true) is the total bit count ... *)
+Theorem C01_trailing_total : forall ws, words_ok ws -> trailing_total ws = Some (total1 ws).
+Proof. exact trailing_total_exact. Qed.
+Print Assumptions C01_trailing_total.
+
+(** ... and it is count + bit at the last position *)
+Theorem C01_rank_end : forall f ws r b, words_ok ws -> query f ws (64 * zlen ws - 1) = Some (r, b) ->
+  r + b = total1 ws /\ trailing_total ws = Some (r + b).
+Proof. exact law_end. Qed.
+Print Assumptions C01_rank_end.
+
+(** the index entries are the answers at the word boundaries *)
+Theorem C01_index_checkpoints : forall f tr ws k, words_ok ws -> 0 <= k < zlen ws ->
+  exists b, query f ws (64 * k) = Some (nth (Z.to_nat k) (IndexRank64 ws tr) 0, b).
+Proof. exact law_checkpoint. Qed.
+Print Assumptions C01_index_checkpoints.
+
+(** the law checker of the run-time op bitmap.Rank/laws accepts what the model returns *)
+Theorem C01_law_check_sound : forall ws i j, words_ok ws -> 0 <= i <= j -> j < 64 * zlen ws ->
+  exists pi pj tot,
+    map (fun f => query f ws i) flavours = [Some pi; Some pi; Some pi] /\
+    map (fun f => query f ws j) flavours = [Some pj; Some pj; Some pj] /\
+    trailing_total ws = Some tot /\
+    law_check (64 * zlen ws) i j [pi; pi; pi] [pj; pj; pj] tot = true.
+Proof. exact law_check_sound. Qed.
+Print Assumptions C01_law_check_sound.
+
+(** the contract of the query functions on their own, whatever built the index: they read ONE entry and ONE word
+    (locality), and are exact as soon as that entry is the count before the checkpoint it stands for *)
+Theorem C01_Rank64_local : forall ws ws' ridx ridx' i,
+  nthZ ridx (Z.shiftr i 6) = nthZ ridx' (Z.shiftr i 6) -> nthZ ws (Z.shiftr i 6) = nthZ ws' (Z.shiftr i 6) ->
+  Rank64 ws ridx i = Rank64 ws' ridx' i.
+Proof. exact Rank64_local. Qed.
+Print Assumptions C01_Rank64_local.
+
+Theorem C01_Rank128_local : forall ws ws' ridx ridx' i,
+  nthZ ridx (Z.shiftr (i + 64) 7) = nthZ ridx' (Z.shiftr (i + 64) 7) ->
+  nthZ ws (Z.shiftr i 6) = nthZ ws' (Z.shiftr i 6) ->
+  Rank128 ws ridx i = Rank128 ws' ridx' i.
+Proof. exact Rank128_local. Qed.
+Print Assumptions C01_Rank128_local.
+
+Theorem C01_Rank64_contract : forall ws ridx i, words_ok ws -> 0 <= i < 64 * zlen ws ->
+  nthZ ridx (i / 64) = Some (rank1z (flat ws) (64 * (i / 64))) ->
+  Rank64 ws ridx i = Some (spec_Rank ws i).
+Proof. exact Rank64_contract. Qed.
+Print Assumptions C01_Rank64_contract.
+
+Theorem C01_Rank128_contract : forall ws ridx i, words_ok ws -> 0 <= i < 64 * zlen ws ->
+  nthZ ridx ((i + 64) / 128) = Some (rank1z (flat ws) (128 * ((i + 64) / 128))) ->
+  Rank128 ws ridx i = Some (spec_Rank ws i).
+Proof. exact Rank128_contract. Qed.
+Print Assumptions C01_Rank128_contract.
+
+(** the queries as the code has them - reading [Mask[j]] from the TABLE that initMasks of bitmap/mask.go fills - are the
+    queries of Model/Rank.v (closed form [2^j - 1]); so every theorem above holds for the table-reading code *)
+Theorem C01_Rank64_reads_Mask_table : forall ws ridx i, Rank64_tab ws ridx i = Rank64 ws ridx i.
+Proof. exact Rank64_tab_eq. Qed.
+Print Assumptions C01_Rank64_reads_Mask_table.
+
+Theorem C01_Rank128_reads_Mask_table : forall ws ridx i, Rank128_tab ws ridx i = Rank128 ws ridx i.
+Proof. exact Rank128_tab_eq. Qed.
+Print Assumptions C01_Rank128_reads_Mask_table.
+
+(** the three indexes side by side are the running sums of the per-word bit counts (op bitmap.IndexRank/all, /rle) *)
+Theorem C01_indexes_running_sums : forall ws, words_ok ws ->
+  (IndexRank64 ws false, IndexRank64 ws true, IndexRank128 ws) = spec_indexes ws.
+Proof. exact index_all_exact. Qed.
+Print Assumptions C01_indexes_running_sums.
+
+(** the running sums are the bit-by-bit counts of the property statement *)
+Theorem C01_running_sums_are_ranks : forall ws,
+  spec_indexes ws = (spec_IndexRank64 ws false, spec_IndexRank64 ws true, spec_IndexRank128 ws).
+Proof. exact spec_indexes_rank. Qed.
+Print Assumptions C01_running_sums_are_ranks.
+
+(** IndexRank64 without the total = with it minus the last entry; IndexRank128 = every other entry *)
+Theorem C01_index_relations : forall ws, words_ok ws ->
+  IndexRank64 ws false = removelast (IndexRank64 ws true) /\
+  IndexRank128 ws = evens (IndexRank64 ws true) /\
+  IndexRank64 ws true = psums (map popcount ws) 0.
+Proof. exact index_relations. Qed.
+Print Assumptions C01_index_relations.
+
+(** rank of a concatenation, bit by bit *)
+Theorem C01_rank_concat_spec : forall a b i,
+  RankLawsSpec.spec_query (a ++ b) i =
+  if i <? 64 * zlen a then RankLawsSpec.spec_query a i
+  else option_map (fun p => (total1 a + fst p, snd p)) (RankLawsSpec.spec_query b (i - 64 * zlen a)).
+Proof. exact spec_query_app. Qed.
+Print Assumptions C01_rank_concat_spec.
+
+(** a bitmap kept in two pieces with their own indexes answers like the index of the whole, for every flavour
+    and every parity of the first piece (op bitmap.Rank/concat) *)
+Theorem C01_rank_two_pieces : forall f f' a b i, words_ok a -> words_ok b ->
+  query f (a ++ b) i = query_parts f' a b i.
+Proof. exact query_concat. Qed.
+Print Assumptions C01_rank_two_pieces.
+
+Theorem C01_IndexRank64_concat : forall a b tr, words_ok a ->
+  IndexRank64 (a ++ b) tr = IndexRank64 a false ++ map (Z.add (total1 a)) (IndexRank64 b tr).
+Proof. exact IndexRank64_app. Qed.
+Print Assumptions C01_IndexRank64_concat.
+
+(** the 128-bit index of a concatenation, when the first piece has an even number of words (its last entry, the
+    total of the first piece, is where the second index starts) *)
+Theorem C01_IndexRank128_concat : forall a b, words_ok a -> words_ok b -> Nat.even (length a) = true ->
+  IndexRank128 (a ++ b) = removelast (IndexRank128 a) ++ map (Z.add (total1 a)) (IndexRank128 b).
+Proof. exact IndexRank128_app. Qed.
+Print Assumptions C01_IndexRank128_concat.
+
+(** histories over several bitmaps with HELD indexes, queried in any order, words overwritten in place and the
+    bitmap re-indexed: every answer is for the current contents (op bitmap.Rank/history) *)
+Theorem C01_history : forall steps bms, Forall words_ok bms -> Forall hstep_ok steps ->
+  hrun (map build bms) steps = spec_hrun bms steps.
+Proof. exact history_exact. Qed.
+Print Assumptions C01_history.
+
+(** what overwriting word [k] does to the counts: nothing up to that word, the difference of the bit counts after it *)
+Theorem C01_rank_after_set : forall ws k w w0 i, nth_error ws k = Some w0 -> 0 <= i ->
+  (i <= 64 * Z.of_nat k -> rank1z (flat (set_nth ws k w)) i = rank1z (flat ws) i) /\
+  (64 * Z.of_nat (S k) <= i ->
+     rank1z (flat (set_nth ws k w)) i = rank1z (flat ws) i - pop1 w0 + pop1 w).
+Proof. exact rank_after_set. Qed.
+Print Assumptions C01_rank_after_set.
+
+(** composition with the other readers: the count is the number of elements of ToArray(words) below [i], the bit
+    is what Get1 returns (rank/select is C02, Slice/rank is C14, Of/rank is C12) *)
+Theorem C01_rank_ToArray : forall f ws ta i r b, words_ok ws -> ToArray ws = Some ta ->
+  query f ws i = Some (r, b) -> r = count_below ta i /\ b = Z.b2z (member ta i).
+Proof. exact rank_ToArray. Qed.
+Print Assumptions C01_rank_ToArray.
+
+Theorem C01_rank_Of : forall ps opt, Sorted.StronglySorted Z.lt ps -> (forall p, In p ps -> 0 <= p) ->
+  exists r, Of ps opt = Some r /\
+    forall f i, 0 <= i < 64 * zlen r -> query f r i = Some (count_below ps i, Z.b2z (member ps i)).
+Proof. exact rank_Of. Qed.
+Print Assumptions C01_rank_Of.
+
+Theorem C01_rank_Get1 : forall f ws i r b, words_ok ws -> query f ws i = Some (r, b) -> Get1 ws i = Some b.
+Proof. exact rank_Get1. Qed.
+Print Assumptions C01_rank_Get1.
+
+(** rank0: the count of 0-bits before [i] = the rank in the complemented bitmap = i - rank1 (op bitmap.Rank/complement) *)
+Theorem C01_rank_complement : forall f f' ws i r b r' b', words_ok ws ->
+  query f ws i = Some (r, b) -> query f' (map not64 ws) i = Some (r', b') -> r + r' = i /\ b + b' = 1.
+Proof. exact rank_complement. Qed.
+Print Assumptions C01_rank_complement.
+
+(** constant bitmaps (the exhaustive sweep of the generator) *)
+Theorem C01_rank_zeros : forall f n i, 0 <= i < 64 * Z.of_nat n -> query f (zeros_bm n) i = Some (0, 0).
+Proof. exact rank_zeros. Qed.
+Print Assumptions C01_rank_zeros.
+
+Theorem C01_rank_ones : forall f n i, 0 <= i < 64 * Z.of_nat n -> query f (ones_bm n) i = Some (i, 1).
+Proof. exact rank_ones. Qed.
+Print Assumptions C01_rank_ones.
+
+Example C01_laws_nonvacuous :
+  let ws := [5; 2^64 - 1; 6] in
+  query F128 ws 130 = Some (67, 1) /\ query (F64 true) ws 131 = Some (68, 0) /\ 68 = 67 + 1 /\
+  query (F64 false) ws 191 = Some (68, 0) /\ trailing_total ws = Some 68 /\ total1 ws = 68 /\
+  query F128 ws 192 = None /\ query F128 ws (-1) = None /\
+  law_check 192 130 131 [(67, 1); (67, 1); (67, 1)] [(68, 0); (68, 0); (68, 0)] 68 = true /\
+  law_check 192 130 131 [(67, 1); (67, 1); (67, 1)] [(67, 0); (67, 0); (67, 0)] 68 = false /\
+  spec_indexes ws = ([0; 2; 66], [0; 2; 66; 68], [0; 66]) /\
+  query_parts F128 [5] [2^64 - 1; 6] 130 = Some (67, 1) /\
+  hrun (map build [ws; [1; 1; 1]]) [HQ F128 0 130; HQ F128 1 130; HSet 0 1 0; HQ (F64 true) 0 130; HQ F128 1 130]
+    = Some [OQ (Some (67, 1)); OQ (Some (3, 0)); OT (Some 4); OQ (Some (3, 1)); OQ (Some (3, 0))] /\
+  query F128 (map not64 ws) 130 = Some (63, 0) /\
+  Rank64 ws [0; 0; 66; 7; 7] 130 = Some (67, 1) /\ Rank64_tab ws [0; 0; 66] 130 = Some (67, 1) /\ Rank128 ws [7; 66] 130 = Some (67, 1) /\
+  ToArray ws = Some ([0; 2] ++ map Z.of_nat (seq 64 64) ++ [129; 130]) /\ Get1 ws 130 = Some 1.
+Proof. vm_compute. intuition congruence. Qed.
+
